@@ -5,7 +5,7 @@ import numpy as np
 
 ID = "C10"
 PROPS_FILE = "theories/Props/C10.v"
-EXTRACT = ("theories/Extract/XC10.v", "c10", ["entry_emd", "entry_emdc", "entry_emdl", "entry_emdlf", "entry_cert", "entry_partial", "entry_brute"])
+EXTRACT = ("theories/Extract/XC10.v", "c10", ["entry_emd", "entry_emdc", "entry_emdl", "entry_emdlf", "entry_asis", "entry_cert", "entry_partial", "entry_brute"])
 PYX = {"_fastemd.pyx": ["emd_hat_int32"]}
 RULE = ("one case = one instance (p, q, c, penalty|None) plus an encoding; the implementation is called through "
         "centrosome.fastemd for all variants: flow type NO_FLOW / WITHOUT_TRANSHIPMENT_FLOW / WITHOUT_EXTRA_MASS_FLOW x gd_metric "
@@ -15,7 +15,7 @@ RULE = ("one case = one instance (p, q, c, penalty|None) plus an encoding; the i
         "int, NumPy int32/int64 or float; keyword or positional call; the arguments must come back unmodified. Shapes 1..7 "
         "(thorough ..12, some ..25), 40% unequal lengths, plus a shape-extreme class (length-1 histograms, 1-2 bins against "
         "up to 20, one side all zero, ties / zeros / upper-triangular asymmetric distances, penalty 0 and penalty < max C); "
-        "an isolated-bin class (a non-empty bin at distance max C from every non-empty bin of the other histogram, with explicit penalties 0 .. max C - 1); masses 0..50 with many zeros, equal-mass (permuted / rebalanced) and unequal-mass; a near-bound class scaled so that "
+        "an INT_MAX class (max(C) = 2^31-1 and its neighbour 2^31-2 between empty or occupied bins, with and without regular arcs; each case in a forked process with a 5 s limit); an isolated-bin class (a non-empty bin at distance max C from every non-empty bin of the other histogram, with explicit penalties 0 .. max C - 1); masses 0..50 with many zeros, equal-mass (permuted / rebalanced) and unequal-mass; a near-bound class scaled so that "
         "max(sum P,sum Q)*max C + |sum P - sum Q|*penalty lies in [0.5,1)*2^31 (huge masses or huge distances); ground "
         "distances: |i-j|, thresholded |i-j|, 2-D grid L1, shortest-path closure of a random graph (metrics), symmetric "
         "non-metric, arbitrary, constant, all-zero, 'many entries equal to max' (node removal and pre_flow_cost); penalty "
@@ -28,10 +28,7 @@ TRUSTED = ["min_cost_flow.hpp is modelled twice: at algorithm level (successive 
            "the Python Bellman-Ford that proposes the dual point (alpha, beta, gamma) is untrusted: the extracted, proved "
            "checker emd_cert_ok verifies it",
            "NumPy int32 conversion of the arguments in the wrapper (np.ascontiguousarray)"]
-ASSUMPTIONS = ["max(C) <= 2^31 - 2: with max(C) == INT_MAX the artificial-arc cost maxC + 1 wraps and the real solver never returns "
-               "(candidate finding C10-cand-2, findings/C10.json); such matrices are not generated (guard counted as "
-               "'excluded:max(C) == INT_MAX')",
-               "no int32 overflow: sum(P)*max(C) + |sum P - sum Q|*penalty < 2^31 (generator bound, stated)",
+ASSUMPTIONS = ["no int32 overflow: sum(P)*max(C) + |sum P - sum Q|*penalty < 2^31 (generator bound, stated)",
                "histograms are non-empty (len 0 makes the wrapper read vf[0] of an empty vector: outside the property's domain)",
                "explicit penalties are >= 0 (the value -1 is the C++ sentinel for 'default')",
                "gd_metric=True is only claimed for ground distances that are restrictions of a metric with zero diagonal"]
@@ -341,13 +338,33 @@ def generate(ctx):
             _encode(rng, c)
     cases.extend(one)
     cases.extend(iso)
-    keep = []
-    for c in cases:
-        if max([0] + [int(x) for r in c["c"] for x in r]) >= 2 ** 31 - 1:
-            ctx.count("excluded:max(C) == INT_MAX (candidate finding C10-cand-2)")
-            continue
-        keep.append(c)
-    cases = keep
+    # max(C) = 2^31-1 (finding F21: maxC + 1 wraps for the artificial arcs) and its passing neighbour 2^31-2: the extreme
+    # entry between empty bins, between occupied bins, with and without regular arcs.  These cases are run fork-isolated
+    # with a short timeout (a hang is an outcome, not a harness failure).
+    M = 2 ** 31 - 1
+    im = []
+    for top in (M, M - 1):
+        im += [{"p": [1, 0], "q": [0, 1], "c": [[0, 5], [top, 0]]}, {"p": [1], "q": [1], "c": [[top]]},
+               {"p": [1, 0], "q": [0, 1], "c": [[0, top], [top, 0]]}, {"p": [1, 1], "q": [1, 1], "c": [[0, top], [5, 0]]},
+               {"p": [1, 0, 0], "q": [0, 0, 1], "c": [[0, 7, top - 1], [7, 0, 9], [top, 9, 0]]},
+               {"p": [0, 1], "q": [1, 0], "c": [[top, top], [top - 2, top]]}]
+    for _ in range(ctx.n(4, 30)):
+        n = int(rng.randint(2, 4)); m = int(rng.randint(2, 4))
+        C = rng.randint(0, 9, (n, m)).astype(object)
+        P = rng.randint(0, 2, n); Q = rng.randint(0, 2, m)
+        if P.sum() == 0: P[0] = 1
+        if Q.sum() == 0: Q[0] = 1
+        if max(int(P.sum()), int(Q.sum())) > 1:      # keep the answer inside int32: at most one unit may travel far
+            P[:] = 0; Q[:] = 0; P[int(rng.randint(n))] = 1; Q[int(rng.randint(m))] = 1
+        top = M if rng.rand() < 0.7 else M - 1
+        i, j = int(rng.randint(n)), int(rng.randint(m))
+        C[i, j] = top
+        im.append({"p": [int(x) for x in P], "q": [int(x) for x in Q], "c": [[int(x) for x in r] for r in C.tolist()]})
+    for c in im:
+        mxc = max(x for r in c["c"] for x in r)
+        c.update({"pen": 0 if rng.rand() < 0.5 else None, "metric": False, "kind": "intmax" if mxc == M else "intmax-1",
+                  "tiny": False, "intmax": True})
+    cases.extend(im)
     for c in cases:
         ctx.count("kind:" + c.get("kind", "?"))
         ctx.count("shape:%s" % ("equal" if len(c["p"]) == len(c["q"]) else "unequal"))
@@ -392,7 +409,24 @@ def _enc_mat(vals, n, m, kind, lay):
     return a
 
 
+FORK_TIMEOUT = 5
+
+
 def impl(case):
+    if case.get("intmax") and not os.environ.get("C10_NO_FORK"):
+        # fork-isolated with a short timeout: the call may never return (finding F21)
+        import subprocess, sys
+        env = dict(os.environ); env["C10_NO_FORK"] = "1"
+        code = ("import json,sys\nfrom harness.props import c10\n"
+                "print(json.dumps(c10.impl(json.loads(sys.argv[1]))))")
+        try:
+            r = subprocess.run([sys.executable, "-c", code, json.dumps(case)], env=env, capture_output=True, text=True,
+                               timeout=FORK_TIMEOUT)
+        except subprocess.TimeoutExpired:
+            return {"hang": FORK_TIMEOUT}
+        if r.returncode != 0:
+            return {"crash": "exit %s" % r.returncode, "detail": r.stderr[-300:]}
+        return json.loads(r.stdout.strip().splitlines()[-1])
     from centrosome import fastemd as M
     n, m = len(case["p"]), len(case["q"])
     e = case.get("enc") or {"p": "int32", "q": "int32", "c": "int32", "lay": "C", "pstr": False, "qstr": False,
@@ -472,7 +506,35 @@ def model(ctx, cases, outs):
     """Per case: the certified model's (dist, F) for every variant.  entry_emdc only answers when its own full flow
     passed emd_cert_ok inside the model (theorem C10_model_emd_correct), so no separate check of the model's flow."""
     ms = _run_models(ctx, cases)
-    return [{"r": m, "cert": True, "ll": l} for m, l in zip(ms, _run_models.ll)]
+    f21 = _f21_verdicts(ctx, cases, outs, ms)
+    return [{"r": m, "cert": True, "ll": l, "f21": v} for m, l, v in zip(ms, _run_models.ll, f21)]
+
+
+INT_MAX = 2 ** 31 - 1
+
+
+def _max_c(case):
+    return max([0] + [int(x) for r in case["c"] for x in r])
+
+
+def _f21_verdicts(ctx, cases, outs, ms=None):
+    """Attribution of a hang to finding F21, by the models: max(C) == 2^31-1, the AS-WRITTEN model (artificial arc cost
+    wrap32(maxC+1)) does not finish its bounded flagged run, raises the companion flag and moves no supply, and the EXACT
+    certified model returns an answer for every variant (the property holds for it)."""
+    idx = [k for k, (c, o) in enumerate(zip(cases, outs)) if isinstance(o, dict) and "hang" in o and _max_c(c) == INT_MAX]
+    res = [False] * len(cases)
+    if not idx:
+        return res
+    probe = ctx.run_model("entry_asis", [[cases[k]["p"], cases[k]["q"], cases[k]["c"],
+                                          [] if cases[k]["pen"] is None else [cases[k]["pen"]]] for k in idx])
+    if ms is None:
+        ms = _run_models(ctx, [cases[k] for k in idx])
+        ms = dict(zip(idx, ms))
+    for k, pr in zip(idx, probe):
+        exact = ms[k]
+        ok_exact = all(isinstance(r, list) and len(r) == 2 for r in exact) and len(exact) == len(_variants(cases[k]))
+        res[k] = bool(pr == [0, 1, 1] and ok_exact)
+    return res
 
 
 def _shape_ok(c, F):
@@ -480,6 +542,10 @@ def _shape_ok(c, F):
 
 
 def compare(case, out, mo):
+    if isinstance(out, dict) and "hang" in out:
+        if mo.get("f21"):
+            return None      # behaves as the AS-WRITTEN model (finding F21); the failure itself is reported by check()
+        return "implementation did not return in %s s and the as-written model does not explain it" % out["hang"]
     if _bad(out):
         return "implementation raised/crashed: %s" % (str(out)[:300],)
     m = mo["r"]
@@ -563,6 +629,9 @@ def check(ctx, cases, outs):
     part_args, part_where = [], []
     brute_args, brute_where = [], []
     for k, (c, o) in enumerate(zip(cases, outs)):
+        if isinstance(o, dict) and "hang" in o:
+            res[k] = "implementation did not return in %s s on a valid input (max(C) = %d)" % (o["hang"], _max_c(c))
+            continue
         if _bad(o):
             res[k] = "implementation raised/crashed on a valid input: %s" % (str(o)[:300],)
             continue
@@ -605,6 +674,19 @@ def check(ctx, cases, outs):
         if res[k] is None and r != [d]:
             res[k] = "distance %d differs from the brute-force minimum over all integral flows %s" % (d, r)
     return res
+
+
+def attribute(ctx, case, out, clause):
+    if isinstance(out, dict) and "hang" in out and _f21_verdicts(ctx, [case], [out])[0]:
+        return "F21"
+    return None
+
+
+def reproduce_finding(ctx, finding):
+    if finding.get("id") != "F21":
+        return False
+    out = ctx.run_impl([finding["witness"]])[0]
+    return bool(isinstance(out, dict) and "hang" in out and _f21_verdicts(ctx, [finding["witness"]], [out])[0])
 
 
 def nontrivial(case, out):
@@ -710,7 +792,7 @@ def shrink_candidates(case):
 
 MANIFEST = {
     "level_text": (
-        "Machine-checked proofs (Coq 8.16, 47 theorems, all closed under the global context). (a) The extracted certificate "
+        "Machine-checked proofs (Coq 8.16, 49 theorems, all closed under the global context). (a) The extracted certificate "
         "checker emd_cert_ok is sound for all sizes and inputs: acceptance of (P, Q, C, penalty, d, F, alpha, beta, gamma) "
         "implies that d is exactly the transportation optimum plus penalty*|sum P - sum Q| of the property text (also against "
         "fractional flows) and that F is a feasible integral flow whose cost reproduces d; the value is unique; zero padding "
@@ -737,9 +819,13 @@ MANIFEST = {
         "NOT proved (named in Props/C10.v): that the returned x lists carry the capacity flow (x_caps_consistent); that the run never fails; the read_back / my_dist book-keeping through the node "
         "renaming; that the artificial node is never used (the flag is never set: checked per case, 0 of ~150 000 runs). The "
         "end-to-end statement therefore still rests on the certificate computed inside the algorithm-level model and on the "
-        "per-case certificate check of the implementation's output. int is modelled by Z; int32 overflow is excluded by "
-        "generator bounds, including max(C) <= 2^31-2: with max(C) = INT_MAX the artificial-arc cost wraps and the real solver "
-        "never returns (candidate finding C10-cand-2, found by a targeted refutation attempt)."),
+        "per-case certificate check of the implementation's output. int is modelled by Z; int32 overflow of the answer is "
+        "excluded by generator bounds. KNOWN FINDING F21 (not excluded, generated in every run, fork-isolated with a timeout): "
+        "with max(C) = 2^31-1 the artificial-arc cost maxC + 1 wraps to INT_MIN and emd_hat_int32 never returns (witness "
+        "emd_hat_int32([1,0],[0,1],[[0,5],[2147483647,0]]), expected 5); a hang is attributed to F21 only by the models "
+        "(max(C) = 2^31-1, the as-written model Model/EmdAsIs.v does not finish, raises the companion flag and moves no supply, "
+        "the exact model returns the certified optimum; kernel-evaluated in C10_artificial_cost_wrap_refuted); any other hang, "
+        "crash or disagreement is a violation."),
     "technique": "Coq proof of a certificate checker run on the implementation's output + two executable models (certifying, and line-level with exact flow correspondence) + run-time-checked hypothesis flag",
     "design_ref": "DESIGN.md section 7, C10",
 }
